@@ -1,6 +1,7 @@
 package rules
 
 import (
+	"go/types"
 	"fmt"
 	"go/token"
 	"strings"
@@ -125,20 +126,15 @@ func c12IV(r *core.Run, fn *ssa.Function) {
 	}
 	// (a) integer type
 	chk("integer-only", func(cond ssa.Value) (bool, bool) {
-		op, x, y, neg, ok := core.Compare(cond)
-		if !ok || neg || op != token.NEQ {
-			return false, false
-		}
-		b, isAnd := x.(*ssa.BinOp)
-		if !isAnd || b.Op != token.AND {
+		b, nonZeroOnTrue, ok := maskTest(cond)
+		if !ok {
 			return false, false
 		}
 		if _, isInfo := callTo(b.X, "(*go/types.Basic).Info"); !isInfo {
 			return false, false
 		}
 		k, _ := core.ConstInt(b.Y)
-		z, isZ := core.ConstInt(y)
-		return isZ && z == 0 && k == 2, true // types.IsInteger == 2
+		return k == int64(types.IsInteger), nonZeroOnTrue
 	}, "recorded only for integer-typed updates", "an induction variable is recorded without the integer type test: float counters would be treated as exact")
 	// (d) invariant step
 	chk("step-invariant", core.BoolGuard(func(x ssa.Value) bool {
